@@ -403,14 +403,22 @@ func (d *Dev) DigestRange(lo, hi int64) [32]byte {
 // Bytes returns [lo,hi) as a flat slice (use only on small ranges).
 func (d *Dev) Bytes(lo, hi int64) []byte { return d.Peek(lo, int(hi-lo)) }
 
-// NonZeroExtent returns the end of the highest non-zero page.
+// NonZeroExtent returns the offset just past the last non-zero byte.
 func (d *Dev) NonZeroExtent() int64 {
 	d.mu.RLock()
 	defer d.mu.RUnlock()
 	var m int64
 	for k, v := range d.pages {
-		if !allZero(v) && (k+1)*PageSize > m {
-			m = (k + 1) * PageSize
+		if (k+1)*PageSize <= m {
+			continue
+		}
+		for i := PageSize - 1; i >= 0; i-- {
+			if v[i] != 0 {
+				if e := k*PageSize + int64(i) + 1; e > m {
+					m = e
+				}
+				break
+			}
 		}
 	}
 	if m > d.size {
